@@ -27,13 +27,17 @@ Fits(s, c) == CASE s \in {"E", "E2"} -> c \in ExprProds
                 [] s \in {"B", "BB"} -> c \in StmtProds \cup CompoundProds
 FirstSlot(p) == IF p \in HasE THEN "E" ELSE IF p \in HasE2 THEN "E2" ELSE IF p \in HasT THEN "T" ELSE IF p \in HasB THEN "B" ELSE IF p \in HasBB THEN "BB" ELSE ""
 
+\* A statement of the corpus (CPython's own syntax tests, read from the installed interpreter at check
+\* time) is a derivation too: its root is "Corpus" and its `layout` field holds the key of the text.
+IsCorpus(d) == d.root = "Corpus" /\ d.slot = "" /\ d.child = "" /\ d.grand = "" /\ d.mode = "exec"
 WellFormed(d) ==
-  /\ d.root \in Prods /\ d.layout \in Layouts /\ d.mode \in Modes
-  /\ IF d.slot = "" THEN d.child = "" /\ d.grand = ""
-     ELSE /\ d.slot \in Slots /\ d.root \in Has(d.slot) /\ d.child \in Prods /\ Fits(d.slot, d.child)
-          /\ (d.grand # "" => FirstSlot(d.child) # "" /\ d.grand \in Prods /\ Fits(FirstSlot(d.child), d.grand))
-  \* eval mode parses expressions only
-  /\ (d.mode = "eval" => d.root \in ExprProds)
+  \/ IsCorpus(d)
+  \/ /\ d.root \in Prods /\ d.layout \in Layouts /\ d.mode \in Modes
+     /\ IF d.slot = "" THEN d.child = "" /\ d.grand = ""
+        ELSE /\ d.slot \in Slots /\ d.root \in Has(d.slot) /\ d.child \in Prods /\ Fits(d.slot, d.child)
+             /\ (d.grand # "" => FirstSlot(d.child) # "" /\ d.grand \in Prods /\ Fits(FirstSlot(d.child), d.grand))
+     \* eval mode parses expressions only
+     /\ (d.mode = "eval" => d.root \in ExprProds)
 
 Explained(d) ==
   \/ \E n \in {d.root, d.child, d.grand} : n \in KnownProds \/ <<n, d.layout, d.mode>> \in KnownLayouts
@@ -76,6 +80,7 @@ ASSUME LET P == Prods IN /\ HasE \subseteq P /\ HasE2 \subseteq P /\ HasT \subse
                          /\ KnownProds \subseteq P
                          /\ (Where_def \cup Where_async \cup Where_loop \cup Where_nested) \subseteq P
                          /\ \A t \in KnownPairs : t[1] \in P /\ t[3] \in P /\ t[2] \in Slots
+ASSUME "Corpus" \notin Prods
 ASSUME (HasB \cup HasBB) \subseteq CompoundProds
 ASSUME HasT \subseteq (StmtProds \cup CompoundProds)
 =============================================================================
